@@ -8,7 +8,10 @@ TOKENS = ["a", "b", "c", "d", "e", "sil", "ah", "Z", "x-y", "it's", "w0", "123"]
 OOV = ["zz", "oov", "Q"]
 UTTS = ["u1", "u2", "u10", "u1a", "utt_b", "A03", "x.y", "spk-1_0007", "m", "zz9", "B", "u.pt.x"]
 # (prefix, suffix); the first entries are the defaults, the rest are the starred non-default ones
-AFFIXES = [["", ".pt"], ["p_", ".pt"], ["", ".pth"], ["pre-", ".tok.pt"], ["x", ".t"], ["ab", ".ab"], ["q", ""]]
+# suffixes starting with '_' / '~' sort ABOVE digits and letters: the order of the file names then differs
+# from the order of the utterance ids when one id is a proper prefix of another (u1 / u10, u1 / u1a)
+AFFIXES = [["", ".pt"], ["p_", ".pt"], ["", ".pth"], ["pre-", ".tok.pt"], ["x", ".t"], ["ab", ".ab"], ["q", ""],
+           ["", "_fbank.pt"], ["x", "~.pt"]]
 
 
 def pick_affix(rng, kind):
@@ -18,9 +21,9 @@ def pick_affix(rng, kind):
     if kind == "prefix":
         return [rng.choice(["p_", "pre-", "x", "ab"]), ".pt"]
     if kind == "suffix":
-        return ["", rng.choice([".pth", ".tok.pt", ".t"])]
+        return ["", rng.choice([".pth", ".tok.pt", ".t", "_fbank.pt", "~.pt"])]
     if kind == "both":
-        return list(rng.choice(AFFIXES[3:6]))
+        return list(rng.choice(AFFIXES[3:6] + AFFIXES[8:9]))
     return list(rng.choice(AFFIXES))
 
 
@@ -517,6 +520,16 @@ def gen_subset(rng, tier, i, mode=None):
             refs[u] = gen_ref_tensor(rng, T, 4)
     extra_ali = rng.random() < 0.3 and have_ali  # an utterance only in ali/: must be ignored
     prefix, suffix = pick_affix(rng, affix_kind(rng, i))
+    id_order = False
+    if mode not in ("utt_list", "utt_list_file", "rand_n", "rand_ratio") and n >= 3 and rng.random() < 0.6:
+        # id-order-directed: "listed first by id" means by UTTERANCE ID; with a suffix that sorts above digits
+        # and letters the file names order differently once one id is a proper prefix of another
+        id_order = True
+        prefix, suffix = rng.choice([["", "_fbank.pt"], ["", "~.pt"], ["x", "~.pt"]])
+        utts = ["u1", "u10", "u1a"] + rng.sample([u for u in UTTS if u not in ("u1", "u10", "u1a")], n - 3)
+        rng.shuffle(utts)
+        feats = {u: [[round(rng.uniform(-4, 4), 3) for _ in range(F)]] * 2 for u in utts}  # all lengths equal
+        alis, refs = {}, {}
     arg = None
     if mode in ("utt_list", "utt_list_file"):
         k = rng.randint(0 if mode == "utt_list_file" else 1, n)
@@ -531,6 +544,11 @@ def gen_subset(rng, tier, i, mode=None):
         if by_len and n >= 3 and rng.random() < 0.85:
             lens = sorted((len(feats[u]) for u in utts), reverse=mode.startswith("longest"))
             inside = [c for c in range(1, n) if lens[c - 1] == lens[c]]
+        if id_order:
+            # all lengths are equal: every mode falls back on the id order; cut between u1 / u10 / u1a
+            srt = sorted(utts, reverse=mode.startswith("last"))
+            cuts = sorted({srt.index(u) + 1 for u in ("u1", "u10", "u1a")} - {n})
+            inside = cuts or [1]
         if mode.endswith("_n"):
             arg = max(rng.choice([0, 1, n - 1, n, n + 3, rng.randint(0, n)]), 0)
             if inside:
@@ -542,7 +560,7 @@ def gen_subset(rng, tier, i, mode=None):
             if good:
                 arg = rng.choice(good)
     return {
-        "family": "subset", "sub": mode, "feats": feats, "alis": alis, "refs": refs, "have_ali": have_ali,
+        "family": "subset", "sub": mode, "id_order_directed": id_order, "feats": feats, "alis": alis, "refs": refs, "have_ali": have_ali,
         "have_ref": have_ref, "extra_ali": extra_ali, "only": only, "mode": mode, "arg": arg,
         "style": rng.choice(["link", "copy", "symlink"]), "seed": rng.choice([None, "7", "abc", "0"]),
         "prefix": prefix, "suffix": suffix, "distract": distractors(rng, prefix, suffix, utts),
